@@ -36,7 +36,9 @@ func comparators(c *Ctx) []comparator {
 			case *ssa.MakeClosure:
 				g = a.Fn.(*ssa.Function)
 			case *ssa.Function:
-				if a.Parent() != nil { // a function literal without free variables; named comparators have their own rule
+				// a function literal without free variables, or a named comparator the reference record does not know
+				// (the closure given a name by the change under analysis); recorded named comparators have their own rule
+				if a.Parent() != nil || c.freshFunc(a) {
 					g = a
 				}
 			}
